@@ -55,7 +55,7 @@ CONFIGS = {
 def cases(tier):
     cs = [f"ri/{name}" for name in CONFIGS]
     cs += [f"frame/{g}" for g in ("none", "sgd", "ada")]
-    cs += ["step/flags/g00n00", "step/flags/g01n01", "step/flags/g10n10", "opaque/distributor", "opaque/mask_state_lists"]
+    cs += ["step/flags/g00n00", "step/flags/g01n01", "step/flags/g10n10", "opaque/distributor", "opaque/mask_state_lists", "wiring/steps-per-group"]
     return cs
 
 
@@ -239,6 +239,9 @@ def _frame_case(case):
 
 
 def run_case(case, tier, seed):
+    if case == "wiring/steps-per-group":
+        from checks import wiring
+        return wiring.run_steps_two_groups(case, tier)
     if case.startswith("ri/"):
         return _ri_case(case)
     if case.startswith("frame/"):
@@ -352,6 +355,12 @@ def bounded(tier, seed):
                 if bad:
                     viol.append(dict(ob=f"bounded/{kind}[{name},seed={seed * 1000 + k}]", func="DistributedShampoo.step", input=dict(config=name, history=hist),
                                      text="absent-gradient frame / cross-wiring oracle failed", detail=bad, replay=dict(kind="native_" + kind, cfg=name, seed=seed * 1000 + k)))
+    from checks import wiring
+    bad = wiring.native_two_group_steps()
+    evals += 1
+    distinct.add(("two-groups",))
+    if bad:
+        viol.append(dict(ob="bounded/two-groups-step-counters", func="DistributedShampoo.step", input=dict(groups=2), text=bad, detail=bad, replay=dict(kind="two_group_steps")))
     return dict(evaluations=evals, distinct_nontrivial=len(distinct),
                 rule="random gradient-presence histories (6 steps) on equal-shaped blocks through the real optimizer: absent parameters bit-identical in value and state, all-absent step keeps the counter, twin parameters stay identical despite disturbers; distinct = distinct (config, oracle, history)",
                 samples=samples, bound=f"{n} seeds x 5 configurations x 2 oracles", violations=viol[:5])
@@ -363,6 +372,10 @@ def replay(r):
 
 def replay_file(doc):
     rp = doc.get("replay_input") or {}
+    if rp.get("kind") == "two_group_steps":
+        from checks import wiring
+        bad = wiring.native_two_group_steps()
+        return bool(bad), bad or "per-group step counters advance independently"
     if rp.get("kind") == "native_history":
         hist, bad = native_history(rp["cfg"], rp["seed"])
         return bool(bad), f"history {hist}: {bad}"
